@@ -129,4 +129,405 @@ theorem gen_pageLen (s : PStore) (cap : Int) :
     (1 : Int) * (2 : Int) ^ (Int.toNat (toGen s cap).pageLenLog2) = ((s.pageLen : Nat) : Int) := by
   simp [PStore.pageLen]
 
+/-! ### `pages` bridging -/
+
+theorem len_pagesL (s : PStore) : GoSem.len (pagesL s) = (s.pages.size : Int) := by
+  simp [GoSem.len, pagesL]
+
+theorem length_pagesL (s : PStore) : (pagesL s).length = s.pages.size := by
+  simp [pagesL]
+
+theorem idx_pagesL (s : PStore) (k : Int) (h0 : 0 ≤ k) (h1 : k < (s.pages.size : Int)) :
+    GoSem.idx (pagesL s) k = some (s.pages.getD k.toNat #[]).toList := by
+  have : k.toNat < s.pages.size := by omega
+  unfold GoSem.idx pagesL
+  rw [if_neg (by omega)]
+  simp [this]
+
+theorem idx_pagesL_none (s : PStore) (k : Int) (h : ¬ (0 ≤ k ∧ k < (s.pages.size : Int))) :
+    GoSem.idx (pagesL s) k = none := by
+  unfold GoSem.idx pagesL
+  by_cases h0 : k < 0
+  · rw [if_pos h0]
+  · rw [if_neg h0]
+    have : s.pages.size ≤ k.toNat := by omega
+    simp [this]
+
+theorem set_pagesL (s : PStore) (k : Int) (v : Array Rat) (h0 : 0 ≤ k) (h1 : k < (s.pages.size : Int)) :
+    GoSem.set (pagesL s) k v.toList = some (pagesL { s with pages := s.pages.setIfInBounds k.toNat v }) := by
+  unfold GoSem.set
+  rw [if_neg (by rw [length_pagesL]; omega)]
+  simp [pagesL, List.map_set]
+
+theorem toGen_pages_eq (s : PStore) (cap : Int) (a : Array (Array Rat)) :
+    ({ toGen s cap with pages := pagesL { s with pages := a } } : GP) = toGen { s with pages := a } cap := rfl
+
+/-- the tail of every `ensureExists` branch of the generated `page`: read the slot, materialise an empty page -/
+def fetch (L : Int) (g : GP) (p : Int) : Res (GP × List Rat) :=
+  GoSem.optR (GoSem.idx g.pages (p - g.minPageIndex)) (fun page =>
+    if ((GoSem.len page) == (0 : Int)) then
+      GoSem.optR (GoSem.mkSlice L (0 : Rat)) (fun t2 =>
+        GoSem.optR (GoSem.set g.pages (p - g.minPageIndex) (page ++ t2)) (fun t3 =>
+          .ok ({ g with pages := t3 }, page ++ t2)))
+    else .ok (g, page))
+
+/-- its model counterpart: the last step of `PStore.page` -/
+def mfetch (s : PStore) (p : Int) : Option (PStore × Option Nat) :=
+  let k := p - s.minPageIndex
+  if 0 ≤ k ∧ k < (s.pages.size : Int) then some (s.materialize k.toNat, some k.toNat) else none
+
+theorem fetch_spec (s : PStore) (cap : Int) (p : Int) :
+    fetch (s.pageLen : Int) (toGen s cap) p
+      = toRes (fun (r : PStore × Option Nat) => (toGen r.1 cap, pageOf r.1 r.2)) (mfetch s p) := by
+  unfold fetch mfetch
+  simp only [toGen_pages, toGen_minPageIndex]
+  by_cases h : 0 ≤ p - s.minPageIndex ∧ p - s.minPageIndex < (s.pages.size : Int)
+  · rw [if_pos h, idx_pagesL _ _ h.1 h.2, toRes_some, optR_some]
+    have hk : (p - s.minPageIndex).toNat < s.pages.size := by omega
+    unfold PStore.materialize
+    generalize hpg : s.pages.getD (p - s.minPageIndex).toNat #[] = pg
+    by_cases hz : pg.size = 0
+    · rw [if_pos hz]
+      have hl : (GoSem.len pg.toList == (0 : Int)) = true := by
+        rw [len_toList, hz]; rfl
+      rw [if_pos hl]
+      have hnil : pg.toList = [] := List.eq_nil_of_length_eq_zero (by rw [Array.length_toList]; exact hz)
+      have hmk : GoSem.mkSlice (s.pageLen : Int) (0 : Rat) = some s.zeroPage.toList := by
+        unfold GoSem.mkSlice
+        rw [if_neg (by omega)]
+        simp [PStore.zeroPage]
+      rw [hmk, optR_some, hnil, List.nil_append, set_pagesL _ _ _ h.1 h.2, optR_some]
+      simp only [pageOf, Array.getD_eq_getD_getElem?, Array.getElem?_setIfInBounds_self_of_lt hk, Option.getD_some]
+      rfl
+    · rw [if_neg hz]
+      have hl : ¬ (GoSem.len pg.toList == (0 : Int)) = true := by
+        rw [len_toList]; simp only [beq_iff_eq]; omega
+      rw [if_neg hl]
+      simp only [pageOf, hpg]
+  · rw [if_neg h, idx_pagesL_none _ _ h]; rfl
+
+open Gen.Paginated in
+/-- the generated `page`, with its four copies of the final read-and-materialise step folded into `fetch` -/
+theorem page_unfold (fuel : Nat) (g : GP) (p : Int) (e : Bool) :
+    BufferedPaginatedStore.page fuel g p e =
+      (let L := ((1 : Int) * (2 : Int) ^ (Int.toNat g.pageLenLog2))
+      if ((decide (g.minPageIndex ≤ p)) && (decide (p < (g.minPageIndex + (GoSem.len g.pages))))) then
+        GoSem.optR (GoSem.idx g.pages (p - g.minPageIndex)) (fun page =>
+          if (e && ((GoSem.len page) == (0 : Int))) then
+            GoSem.optR (GoSem.mkSlice L (0 : Rat)) (fun t9 =>
+              GoSem.optR (GoSem.set g.pages (p - g.minPageIndex) (page ++ t9)) (fun t10 =>
+                .ok ({ g with pages := t10 }, page ++ t9)))
+          else .ok (g, page))
+      else if (!e) then .ok (g, [])
+      else if (decide (p < g.minPageIndex)) then
+        if (g.minPageIndex == (9223372036854775807 : Int)) then
+          let g1 : GP := if ((GoSem.len g.pages) == (0 : Int)) then
+              { g with pages := (g.pages ++ (List.replicate (Int.toNat (BufferedPaginatedStore.newPagesLen g (1 : Int))) ([] : List Rat))) }
+            else g
+          fetch L { g1 with minPageIndex := (p - (Int.tdiv (GoSem.len g1.pages) (2 : Int))) } p
+        else
+          let addedLen := (BufferedPaginatedStore.newPagesLen g (((g.minPageIndex - p) + (1 : Int)) + (GoSem.len g.pages))) - (GoSem.len g.pages)
+          GoSem.optR (GoSem.mkSlice addedLen ([] : List Rat)) (fun t4 =>
+            GoSem.optR (GoSem.copyWithin (g.pages ++ t4) addedLen (0 : Int) (GoSem.len (g.pages ++ t4))) (fun t6 =>
+              Loop.elim (BufferedPaginatedStore.page.loop1 addedLen fuel { g with pages := t6 } (0 : Int)) (fun si =>
+                fetch L { si.1 with minPageIndex := (si.1.minPageIndex - addedLen) } p)))
+      else
+        GoSem.optR (GoSem.mkSlice ((BufferedPaginatedStore.newPagesLen g ((p - g.minPageIndex) + (1 : Int))) - (GoSem.len g.pages)) ([] : List Rat)) (fun t7 =>
+          fetch L { g with pages := (g.pages ++ t7) } p)) := by
+  rfl
+
+open Gen.Paginated in
+/-- the only loop of `page`: clear the slots `i … addedLen-1` -/
+theorem page_loop1 (added : Int) (mid : List (List Rat)) :
+    ∀ (pre post : List (List Rat)) (g : GP) (i : Int) (fuel : Nat),
+      g.pages = pre ++ mid ++ post → (pre.length : Int) = i → (mid.length : Int) = added - i →
+      mid.length + 1 ≤ fuel →
+      BufferedPaginatedStore.page.loop1 added fuel g i
+        = .done ({ g with pages := pre ++ List.replicate mid.length [] ++ post }, added) := by
+  induction mid with
+  | nil =>
+    intro pre post g i fuel hp hi hm hf
+    obtain ⟨f, rfl⟩ : ∃ f, fuel = f + 1 := ⟨fuel - 1, by omega⟩
+    simp only [List.length_nil, Int.natCast_zero] at hm
+    have : i = added := by omega
+    subst this
+    unfold BufferedPaginatedStore.page.loop1
+    rw [if_neg (by simp)]
+    simp only [List.length_nil, List.replicate_zero]
+    rw [← hp]
+  | cons x m ih =>
+    intro pre post g i fuel hp hi hm hf
+    obtain ⟨f, rfl⟩ : ∃ f, fuel = f + 1 := ⟨fuel - 1, by omega⟩
+    simp only [List.length_cons] at hm hf
+    unfold BufferedPaginatedStore.page.loop1
+    rw [if_pos (by simp; omega)]
+    have hset : GoSem.set g.pages i ([] : List Rat) = some ((pre ++ [[]]) ++ m ++ post) := by
+      unfold GoSem.set
+      rw [if_neg (by rw [hp]; simp; omega)]
+      rw [hp, ← hi]
+      simp
+    rw [hset, optL_some]
+    rw [ih (pre ++ [[]]) post _ (i + 1) f rfl (by simp; omega) (by omega) (by omega)]
+    simp [List.replicate_succ]
+
+theorem materialize_size_ne (s : PStore) (k : Nat) (hk : k < s.pages.size) :
+    ((s.materialize k).pages.getD k #[]).size ≠ 0 := by
+  unfold PStore.materialize
+  by_cases hz : (s.pages.getD k #[]).size = 0
+  · rw [if_pos hz]
+    simp only [Array.getD_eq_getD_getElem?, Array.getElem?_setIfInBounds_self_of_lt hk, Option.getD_some]
+    have := pageLen_pos s
+    simp [PStore.zeroPage]; omega
+  · rw [if_neg hz]; exact hz
+
+theorem mpage_none (s : PStore) (p : Int) (e : Bool) (h : s.slot? p = none) :
+    s.page p e =
+      if !e then some (s, none)
+      else
+        match (if p < s.minPageIndex then
+            if s.minPageIndex = maxInt then
+              let s1 := if s.pages.size = 0 then { s with pages := Array.replicate (PStore.newPagesLen 1).toNat #[] } else s
+              some { s1 with minPageIndex := p - Int.tdiv (s1.pages.size : Int) 2 }
+            else
+              let addedLen := PStore.newPagesLen (s.minPageIndex - p + 1 + (s.pages.size : Int)) - (s.pages.size : Int)
+              if addedLen < 0 then none
+              else some { s with pages := Array.replicate addedLen.toNat #[] ++ s.pages,
+                                 minPageIndex := s.minPageIndex - addedLen }
+          else
+            let added := PStore.newPagesLen (p - s.minPageIndex + 1) - (s.pages.size : Int)
+            if added < 0 then none else some { s with pages := s.pages ++ Array.replicate added.toNat #[] } : Option PStore) with
+        | none => none
+        | some s' => mfetch s' p := by
+  unfold PStore.page
+  rw [h]
+  rfl
+
+theorem mpage_some (s : PStore) (p : Int) (e : Bool) (k : Nat) (h : s.slot? p = some k) :
+    s.page p e = some (if e then s.materialize k else s,
+      if ((if e then s.materialize k else s).pages.getD k #[]).size = 0 then none else some k) := by
+  unfold PStore.page
+  rw [h]
+
+theorem newPagesLen_le (r : Int) : PStore.newPagesLen r ≤ r + 7 := by
+  unfold PStore.newPagesLen; omega
+
+theorem pagesL_mk (b : List Int) (t : Nat) (a : Array (Array Rat)) (m : Int) (l : Nat) :
+    pagesL { buffer := b, trigger := t, pages := a, minPageIndex := m, pageLenLog2 := l } = a.toList.map Array.toList := rfl
+
+/-- in-range slot -/
+theorem page_spec_in (s : PStore) (cap : Int) (p : Int) (e : Bool) (fuel : Nat)
+    (h : s.minPageIndex ≤ p ∧ p < s.minPageIndex + (s.pages.size : Int)) :
+    Gen.Paginated.BufferedPaginatedStore.page fuel (toGen s cap) p e
+      = toRes (fun (r : PStore × Option Nat) => (toGen r.1 cap, pageOf r.1 r.2)) (s.page p e) := by
+  have hslot : s.slot? p = some (p - s.minPageIndex).toNat := by
+    unfold PStore.slot?; rw [if_pos ⟨h.1, h.2⟩]
+  have hk : (p - s.minPageIndex).toNat < s.pages.size := by omega
+  rw [page_unfold, mpage_some _ _ _ _ hslot]
+  simp only [toGen_minPageIndex, toGen_pages, len_pagesL]
+  rw [if_pos (by simp [h.1, h.2])]
+  cases e with
+  | true =>
+    have := fetch_spec s cap p
+    unfold fetch mfetch at this
+    simp only [toGen_minPageIndex, toGen_pages, gen_pageLen] at this ⊢
+    rw [if_pos (by omega)] at this
+    simp only [Bool.true_and, if_true]
+    rw [this, if_neg (materialize_size_ne s _ hk)]
+  | false =>
+    rw [idx_pagesL _ _ (by omega) (by omega)]
+    simp only [Bool.false_and, optR_some, toRes_some, Bool.false_eq_true, if_false]
+    congr 2
+    by_cases hz : (s.pages.getD (p - s.minPageIndex).toNat #[]).size = 0
+    · rw [if_pos hz]
+      exact List.eq_nil_of_length_eq_zero (by rw [Array.length_toList]; exact hz)
+    · rw [if_neg hz]; rfl
+
+section branches
+open Gen.Paginated
+variable (fuel : Nat) (g : GP) (p : Int)
+
+/-- the range test of the generated `page` -/
+def inRange (g : GP) (p : Int) : Bool :=
+  (decide (g.minPageIndex ≤ p)) && (decide (p < (g.minPageIndex + (GoSem.len g.pages))))
+
+theorem page_out_false (hc : inRange g p = false) :
+    BufferedPaginatedStore.page fuel g p false = .ok (g, []) := by
+  rw [page_unfold]; unfold inRange at hc
+  simp only [hc, Bool.false_eq_true, if_false, if_true, Bool.not_false]
+
+theorem page_out_max_empty (hc : inRange g p = false) (hlt : p < g.minPageIndex)
+    (hmax : g.minPageIndex = 9223372036854775807) (hz : GoSem.len g.pages = 0) :
+    BufferedPaginatedStore.page fuel g p true
+      = fetch ((1 : Int) * (2 : Int) ^ (Int.toNat g.pageLenLog2))
+          { g with pages := g.pages ++ List.replicate (PStore.newPagesLen 1).toNat ([] : List Rat),
+                   minPageIndex := p - Int.tdiv (GoSem.len (g.pages ++ List.replicate (PStore.newPagesLen 1).toNat ([] : List Rat))) 2 } p := by
+  rw [page_unfold]; unfold inRange at hc
+  have hlt' : decide (p < g.minPageIndex) = true := by simpa using hlt
+  have hmax' : (g.minPageIndex == 9223372036854775807) = true := by simpa using hmax
+  have hz' : (GoSem.len g.pages == 0) = true := by simpa using hz
+  simp only [hc, hlt', hmax', hz', gen_newPagesLen, Bool.false_eq_true, if_false, if_true, Bool.not_true]
+
+theorem page_out_max_nonempty (hc : inRange g p = false) (hlt : p < g.minPageIndex)
+    (hmax : g.minPageIndex = 9223372036854775807) (hz : GoSem.len g.pages ≠ 0) :
+    BufferedPaginatedStore.page fuel g p true
+      = fetch ((1 : Int) * (2 : Int) ^ (Int.toNat g.pageLenLog2))
+          { g with minPageIndex := p - Int.tdiv (GoSem.len g.pages) 2 } p := by
+  rw [page_unfold]; unfold inRange at hc
+  have hlt' : decide (p < g.minPageIndex) = true := by simpa using hlt
+  have hmax' : (g.minPageIndex == 9223372036854775807) = true := by simpa using hmax
+  have hz' : (GoSem.len g.pages == 0) = false := by simpa using hz
+  simp only [hc, hlt', hmax', hz', gen_newPagesLen, Bool.false_eq_true, if_false, if_true, Bool.not_true]
+
+theorem page_out_left (hc : inRange g p = false) (hlt : p < g.minPageIndex)
+    (hmax : g.minPageIndex ≠ 9223372036854775807) :
+    BufferedPaginatedStore.page fuel g p true
+      = (let addedLen := PStore.newPagesLen (((g.minPageIndex - p) + (1 : Int)) + (GoSem.len g.pages)) - (GoSem.len g.pages)
+        GoSem.optR (GoSem.mkSlice addedLen ([] : List Rat)) (fun t4 =>
+          GoSem.optR (GoSem.copyWithin (g.pages ++ t4) addedLen (0 : Int) (GoSem.len (g.pages ++ t4))) (fun t6 =>
+            Loop.elim (BufferedPaginatedStore.page.loop1 addedLen fuel { g with pages := t6 } (0 : Int)) (fun si =>
+              fetch ((1 : Int) * (2 : Int) ^ (Int.toNat g.pageLenLog2))
+                { si.1 with minPageIndex := (si.1.minPageIndex - addedLen) } p)))) := by
+  rw [page_unfold]; unfold inRange at hc
+  have hlt' : decide (p < g.minPageIndex) = true := by simpa using hlt
+  have hmax' : (g.minPageIndex == 9223372036854775807) = false := by simpa using hmax
+  simp only [hc, hlt', hmax', gen_newPagesLen, Bool.false_eq_true, if_false, if_true, Bool.not_true]
+
+theorem page_out_right (hc : inRange g p = false) (hlt : ¬ p < g.minPageIndex) :
+    BufferedPaginatedStore.page fuel g p true
+      = GoSem.optR (GoSem.mkSlice (PStore.newPagesLen ((p - g.minPageIndex) + (1 : Int)) - (GoSem.len g.pages)) ([] : List Rat)) (fun t7 =>
+          fetch ((1 : Int) * (2 : Int) ^ (Int.toNat g.pageLenLog2)) { g with pages := (g.pages ++ t7) } p) := by
+  rw [page_unfold]; unfold inRange at hc
+  have hlt' : decide (p < g.minPageIndex) = false := by simpa using hlt
+  simp only [hc, hlt', gen_newPagesLen, Bool.false_eq_true, if_false, Bool.not_true]
+
+end branches
+
+theorem toGen_upd (s s' : PStore) (cap : Int) (pg : List (List Rat)) (m : Int)
+    (hb : s'.buffer = s.buffer) (ht : s'.trigger = s.trigger) (hl : s'.pageLenLog2 = s.pageLenLog2)
+    (hp : pg = pagesL s') (hm : m = s'.minPageIndex) :
+    ({ buffer := (toGen s cap).buffer, bufferCap := (toGen s cap).bufferCap,
+       bufferCompactionTriggerLen := (toGen s cap).bufferCompactionTriggerLen,
+       pages := pg, minPageIndex := m,
+       pageLenLog2 := (toGen s cap).pageLenLog2, pageLenMask := (toGen s cap).pageLenMask } : GP) = toGen s' cap := by
+  unfold toGen; simp only [hb, ht, hl, hp, hm]
+
+theorem fetch_upd (s s' : PStore) (cap p L : Int) (pg : List (List Rat)) (m : Int)
+    (hL : L = (s'.pageLen : Int))
+    (hb : s'.buffer = s.buffer) (ht : s'.trigger = s.trigger) (hl : s'.pageLenLog2 = s.pageLenLog2)
+    (hp : pg = pagesL s') (hm : m = s'.minPageIndex) :
+    fetch L
+      ({ buffer := (toGen s cap).buffer, bufferCap := (toGen s cap).bufferCap,
+         bufferCompactionTriggerLen := (toGen s cap).bufferCompactionTriggerLen,
+         pages := pg, minPageIndex := m,
+         pageLenLog2 := (toGen s cap).pageLenLog2, pageLenMask := (toGen s cap).pageLenMask } : GP) p
+      = toRes (fun (r : PStore × Option Nat) => (toGen r.1 cap, pageOf r.1 r.2)) (mfetch s' p) := by
+  rw [toGen_upd s s' cap pg m hb ht hl hp hm, hL]; exact fetch_spec s' cap p
+
+theorem fetch_spec' (s : PStore) (cap : Int) (p : Int) (L : Int) (hL : L = (s.pageLen : Int)) :
+    fetch L (toGen s cap) p
+      = toRes (fun (r : PStore × Option Nat) => (toGen r.1 cap, pageOf r.1 r.2)) (mfetch s p) := by
+  subst hL; exact fetch_spec s cap p
+
+theorem inRange_toGen (s : PStore) (cap : Int) (p : Int) :
+    inRange (toGen s cap) p = decide (s.minPageIndex ≤ p ∧ p < s.minPageIndex + (s.pages.size : Int)) := by
+  unfold inRange
+  simp only [toGen_minPageIndex, toGen_pages, len_pagesL]
+  by_cases h1 : s.minPageIndex ≤ p <;> by_cases h2 : p < s.minPageIndex + (s.pages.size : Int) <;> simp [h1, h2]
+
+theorem pagesL_nil (s : PStore) (h : s.pages.size = 0) : pagesL s = [] := by
+  unfold pagesL
+  have : s.pages = #[] := Array.eq_empty_of_size_eq_zero h
+  rw [this]; rfl
+
+/-- out-of-range slot -/
+theorem page_spec_out (s : PStore) (cap : Int) (p : Int) (e : Bool) (fuel : Nat) (hf : pageFuel s p ≤ fuel)
+    (h : ¬ (s.minPageIndex ≤ p ∧ p < s.minPageIndex + (s.pages.size : Int))) :
+    Gen.Paginated.BufferedPaginatedStore.page fuel (toGen s cap) p e
+      = toRes (fun (r : PStore × Option Nat) => (toGen r.1 cap, pageOf r.1 r.2)) (s.page p e) := by
+  have hslot : s.slot? p = none := by
+    unfold PStore.slot?; rw [if_neg (by omega)]
+  have hc : inRange (toGen s cap) p = false := by
+    rw [inRange_toGen]; simpa using h
+  rw [mpage_none _ _ _ hslot]
+  cases e with
+  | false => rw [page_out_false _ _ _ hc]; rfl
+  | true =>
+    simp only [Bool.not_true, Bool.false_eq_true, if_false]
+    by_cases hlt : p < s.minPageIndex
+    · rw [if_pos hlt]
+      by_cases hmax : s.minPageIndex = maxInt
+      · rw [if_pos hmax]
+        by_cases hz : s.pages.size = 0
+        · rw [page_out_max_empty _ _ _ hc hlt hmax (by rw [toGen_pages, len_pagesL, hz]; rfl)]
+          simp only [hz, if_true]
+          refine fetch_upd s _ cap p _ _ _ (gen_pageLen s cap) rfl rfl rfl ?_ ?_
+          · simp [pagesL, Array.eq_empty_of_size_eq_zero hz]
+          · simp [pagesL_nil s hz, GoSem.len]
+        · rw [page_out_max_nonempty _ _ _ hc hlt hmax (by rw [toGen_pages, len_pagesL]; omega)]
+          simp only [hz, if_false]
+          refine fetch_upd s _ cap p _ _ _ (gen_pageLen s cap) rfl rfl rfl rfl ?_
+          simp [len_pagesL]
+      · rw [if_neg hmax, page_out_left _ _ _ hc hlt hmax]
+        simp only [toGen_minPageIndex, toGen_pages, len_pagesL]
+        generalize hadd : PStore.newPagesLen (s.minPageIndex - p + 1 + (s.pages.size : Int)) - (s.pages.size : Int) = added
+        have hle := newPagesLen_le (s.minPageIndex - p + 1 + (s.pages.size : Int))
+        by_cases hneg : added < 0
+        · rw [if_pos hneg]
+          have : GoSem.mkSlice added ([] : List Rat) = none := by unfold GoSem.mkSlice; rw [if_pos hneg]
+          rw [this]; rfl
+        · rw [if_neg hneg]
+          have hmk : GoSem.mkSlice added ([] : List Rat) = some (List.replicate added.toNat []) := by
+            unfold GoSem.mkSlice; rw [if_neg hneg]
+          rw [hmk, optR_some]
+          have hcw : GoSem.copyWithin (pagesL s ++ List.replicate added.toNat ([] : List Rat)) added 0
+                (GoSem.len (pagesL s ++ List.replicate added.toNat ([] : List Rat)))
+              = some ((pagesL s ++ List.replicate added.toNat ([] : List Rat)).take added.toNat ++ pagesL s) := by
+            unfold GoSem.copyWithin GoSem.len
+            rw [if_neg (by simp only [List.length_append, List.length_replicate, length_pagesL]; omega)]
+            simp only [List.length_append, List.length_replicate, length_pagesL, Int.toNat_zero, List.drop_zero,
+              Nat.sub_zero]
+            have h1 : ((s.pages.size + added.toNat : Nat) : Int).toNat = s.pages.size + added.toNat := by omega
+            rw [h1]
+            have h2 : min (s.pages.size + added.toNat - added.toNat) (s.pages.size + added.toNat) = s.pages.size := by
+              omega
+            rw [h2]
+            have h3 : (pagesL s ++ List.replicate added.toNat ([] : List Rat)).take s.pages.size = pagesL s := by
+              rw [← length_pagesL s]; exact List.take_left' rfl
+            have h4 : (pagesL s ++ List.replicate added.toNat ([] : List Rat)).drop (added.toNat + s.pages.size) = [] := by
+              apply List.drop_eq_nil_of_le
+              simp [length_pagesL]; omega
+            rw [h3, h4, List.append_nil]
+          rw [hcw, optR_some]
+          have hfuel : added.toNat + 1 ≤ fuel := by
+            unfold pageFuel at hf
+            rw [if_neg (by omega)] at hf
+            omega
+          have hlen : ((pagesL s ++ List.replicate added.toNat ([] : List Rat)).take added.toNat).length = added.toNat := by
+            simp [length_pagesL]
+          rw [page_loop1 added ((pagesL s ++ List.replicate added.toNat ([] : List Rat)).take added.toNat) [] (pagesL s) _ 0 fuel (by simp) rfl (by rw [hlen]; omega) (by rw [hlen]; exact hfuel)]
+          simp only [Loop.elim_done, hlen, List.nil_append]
+          refine fetch_upd s _ cap p _ _ _ (gen_pageLen s cap) rfl rfl rfl ?_ rfl
+          simp [pagesL]
+    · rw [if_neg hlt, page_out_right _ _ _ hc hlt]
+      simp only [toGen_minPageIndex, toGen_pages, len_pagesL]
+      generalize hadd : PStore.newPagesLen (p - s.minPageIndex + 1) - (s.pages.size : Int) = added
+      by_cases hneg : added < 0
+      · rw [if_pos hneg]
+        have : GoSem.mkSlice added ([] : List Rat) = none := by unfold GoSem.mkSlice; rw [if_pos hneg]
+        rw [this]; rfl
+      · rw [if_neg hneg]
+        have hmk : GoSem.mkSlice added ([] : List Rat) = some (List.replicate added.toNat []) := by
+          unfold GoSem.mkSlice; rw [if_neg hneg]
+        rw [hmk, optR_some]
+        refine fetch_upd s _ cap p _ _ _ (gen_pageLen s cap) rfl rfl rfl ?_ rfl
+        simp [pagesL]
+
+/-- **`page`** = the model's `page`, for every store, capacity, page index and flag; `pageFuel s p` suffices
+    (the statement of `PageSpec` is true as stated) -/
+theorem page_spec : PageSpec := by
+  intro s cap p e fuel hf
+  by_cases h : s.minPageIndex ≤ p ∧ p < s.minPageIndex + (s.pages.size : Int)
+  · exact page_spec_in s cap p e fuel h
+  · exact page_spec_out s cap p e fuel hf h
+
 end DDS.GenPag
